@@ -19,7 +19,7 @@ func exhBlocks(tier string) []exhBlock {
 	}
 	fams := []fam{{"ab", 11}, {" a\x00", 6}}
 	if tier == "thorough" {
-		fams = []fam{{"ab", 14}, {" a\x00", 8}, {"a b\xff", 6}}
+		fams = []fam{{"ab", 16}, {" a\x00", 10}, {"a b\xff", 8}}
 	}
 	var out []exhBlock
 	for _, f := range fams {
@@ -145,7 +145,7 @@ func genReadSched(r *core.Rand, n int) ReadSched {
 func c06Size(tier string, r *core.Rand) (size int, rebuild bool) {
 	w := []int{1, 6, 4, 10, 3, 6, 2, 0}
 	if tier == "thorough" {
-		w = []int{1, 5, 4, 10, 3, 8, 5, 4}
+		w = []int{1, 4, 3, 8, 3, 8, 6, 8}
 	}
 	switch r.Pick(w...) {
 	case 0:
